@@ -34,18 +34,19 @@ func init() { Registry["C13"] = runC13 }
 
 // sTerm is a term of TypeSyntax.tla
 type sTerm struct {
-	K   string   `json:"k"`
-	N   string   `json:"n,omitempty"`
-	Pkg string   `json:"pkg,omitempty"`
-	E   *sTerm   `json:"e,omitempty"`
-	Len int      `json:"len,omitempty"`
-	Key *sTerm   `json:"key,omitempty"`
-	Dir string   `json:"dir,omitempty"`
-	Ps  []sTerm  `json:"ps,omitempty"`
-	Rs  []sTerm  `json:"rs,omitempty"`
-	Va  bool     `json:"va,omitempty"`
-	Fs  []sField `json:"fs,omitempty"`
-	Ms  []sMeth  `json:"ms,omitempty"`
+	K    string   `json:"k"`
+	N    string   `json:"n,omitempty"`
+	Pkg  string   `json:"pkg,omitempty"`
+	E    *sTerm   `json:"e,omitempty"`
+	Len  int      `json:"len,omitempty"`
+	Key  *sTerm   `json:"key,omitempty"`
+	Dir  string   `json:"dir,omitempty"`
+	Ps   []sTerm  `json:"ps,omitempty"`
+	Rs   []sTerm  `json:"rs,omitempty"`
+	Va   bool     `json:"va,omitempty"`
+	Fs   []sField `json:"fs,omitempty"`
+	Ms   []sMeth  `json:"ms,omitempty"`
+	Args []sTerm  `json:"args,omitempty"`
 }
 type sField struct {
 	N   string `json:"n"`
@@ -70,6 +71,16 @@ func (t sTerm) String() string {
 		return t.Pkg + "." + t.N
 	case "named":
 		return t.N
+	case "inst":
+		var as []string
+		for _, a := range t.Args {
+			as = append(as, a.String())
+		}
+		q := ""
+		if t.Pkg != "" {
+			q = t.Pkg + "."
+		}
+		return q + t.N + "[" + strings.Join(as, ", ") + "]"
 	case "ptr":
 		return "*" + t.E.String()
 	case "slice":
@@ -140,6 +151,8 @@ func (t sTerm) String() string {
 func (t sTerm) shape() string {
 	inner := ""
 	switch {
+	case t.K == "inst":
+		inner = "(" + t.Pkg + t.N + ":" + t.Args[len(t.Args)-1].K + ")"
 	case t.E != nil:
 		inner = "(" + t.E.K + ")"
 	case t.K == "struct" && len(t.Fs) > 0:
@@ -177,6 +190,13 @@ func newC13World() *c13World {
 		m := types.NewFunc(token.NoPos, p, "M", types.NewSignatureType(nil, nil, nil, nil, nil, false))
 		types.NewNamed(in, types.NewInterfaceType([]*types.Func{m}, nil).Complete(), nil)
 		p.Scope().Insert(in)
+		// type G[T any] struct{ V T }
+		gn := types.NewTypeName(token.NoPos, p, "G", nil)
+		gnamed := types.NewNamed(gn, nil, nil)
+		tp := types.NewTypeParam(types.NewTypeName(token.NoPos, p, "T", nil), types.Universe.Lookup("any").Type())
+		gnamed.SetTypeParams([]*types.TypeParam{tp})
+		gnamed.SetUnderlying(types.NewStruct([]*types.Var{types.NewField(token.NoPos, p, "V", tp, false)}, nil))
+		p.Scope().Insert(gn)
 		p.MarkComplete()
 		return p
 	}
@@ -217,6 +237,20 @@ func (w *c13World) realise(t sTerm, pkg *types.Package, local map[string]types.T
 			return types.Universe.Lookup("error").Type()
 		}
 		return local[t.N]
+	case "inst":
+		gen := local[t.N]
+		if t.Pkg == "ax" {
+			gen = w.ax.Scope().Lookup(t.N).Type()
+		}
+		var args []types.Type
+		for _, a := range t.Args {
+			args = append(args, w.realise(a, pkg, local))
+		}
+		inst, err := types.Instantiate(nil, gen, args, true)
+		if err != nil {
+			panic("harness: cannot instantiate " + t.String() + ": " + err.Error())
+		}
+		return inst
 	case "ptr":
 		return types.NewPointer(w.realise(*t.E, pkg, local))
 	case "slice":
@@ -302,6 +336,15 @@ func sameType(a, b types.Type, depth int) string {
 		local := func(p string) bool { return p == "" || p == "p" }
 		if xo.Name() != yo.Name() || (xp != yp && !(local(xp) && local(yp))) {
 			return fmt.Sprintf("named %s.%s vs %s.%s", xp, xo.Name(), yp, yo.Name())
+		}
+		xa, ya := x.TypeArgs(), y.TypeArgs()
+		if xa.Len() != ya.Len() {
+			return fmt.Sprintf("type arguments of %v vs %v", a, b)
+		}
+		for i := 0; i < xa.Len(); i++ {
+			if d := sameType(xa.At(i), ya.At(i), depth+1); d != "" {
+				return "type argument: " + d
+			}
 		}
 	case *types.Pointer:
 		y, ok := b.(*types.Pointer)
@@ -407,6 +450,14 @@ func c13Check(run *ev.Run, terms []sTerm, conf string) {
 	local["MyStruct"] = pkg.NewType("MyStruct").InitType(pkg, types.NewStruct([]*types.Var{types.NewField(token.NoPos, pkg.Types, "X", ti, false)}, nil))
 	mM := types.NewFunc(token.NoPos, pkg.Types, "M", types.NewSignatureType(nil, nil, nil, nil, nil, false))
 	local["MyIface"] = pkg.NewType("MyIface").InitType(pkg, types.NewInterfaceType([]*types.Func{mM}, nil).Complete())
+	// local generic types: type G[T any] struct{ V T };  type P2[K comparable, V any] map[K]V
+	{
+		tp := types.NewTypeParam(types.NewTypeName(token.NoPos, pkg.Types, "T", nil), types.Universe.Lookup("any").Type())
+		local["G"] = pkg.NewType("G").InitType(pkg, types.NewStruct([]*types.Var{types.NewField(token.NoPos, pkg.Types, "V", tp, false)}, nil), tp)
+		tk := types.NewTypeParam(types.NewTypeName(token.NoPos, pkg.Types, "K", nil), types.Universe.Lookup("comparable").Type())
+		tv := types.NewTypeParam(types.NewTypeName(token.NoPos, pkg.Types, "V", nil), types.Universe.Lookup("any").Type())
+		local["P2"] = pkg.NewType("P2").InitType(pkg, types.NewMap(tk, tv), tk, tv)
+	}
 	orig := make([]types.Type, len(terms))
 	failed := make([]string, len(terms))
 	for i, t := range terms {
@@ -584,7 +635,7 @@ func runC13(tier, replay string) {
 		}
 		return s + "\nCHECK_DEADLOCK FALSE\n"
 	}
-	all := `{"ptr","slice","array","map","chan","func","struct","iface"}`
+	all := `{"ptr","slice","array","map","chan","func","struct","iface","inst"}`
 	type conf struct{ name, cfg string }
 	confs := []conf{
 		{"all-constructors-depth1-rich-leaves", cfg(false, 1, all, "rich", true)},
@@ -593,7 +644,7 @@ func runC13(tier, replay string) {
 	if tier == "thorough" {
 		confs = []conf{
 			{"all-constructors-depth2-rich-leaves", cfg(false, 2, all, "rich", true)},
-			{"binding-sensitive-depth3", cfg(false, 3, `{"chan","func","ptr","slice"}`, "small", true)},
+			{"binding-sensitive-depth3", cfg(false, 3, `{"chan","func","ptr","slice","inst"}`, "small", true)},
 		}
 	}
 	var states, transitions, total int64
